@@ -10,6 +10,7 @@ Require Import Fggs.Proofs.BigSum Fggs.Proofs.SP_trees Fggs.Proofs.SP_nonrec Fgg
                Fggs.Proofs.SP_rename Fggs.Proofs.SP_spe Fggs.Proofs.SP_driver Fggs.Proofs.SP_main
                Fggs.Proofs.SP_corollaries Fggs.Proofs.SP_examples Fggs.Proofs.SP_check_sound
                Fggs.Proofs.SP_scc_glue.
+Require Import Fggs.Model.EReal Fggs.Model.Trop Fggs.Proofs.Instances_scc Fggs.Proofs.Instances.
 
 (** * 0. The oracle of the correspondence check is sound *)
 (** verdict 0 of [sp_check] (any carrier, any tolerance predicate [within]): the grammar is
@@ -319,3 +320,308 @@ Proof.
         (conj ord_ex_all (conj order_ex_nonrecursive t_ex_wf)))))).
 Qed.
 Print Assumptions C01_example_hypotheses.
+
+(** * 5. Composition with C08 (law records of the carriers) and C19 (Tarjan): no premise left *)
+(** the nonterminal graph of EVERY grammar is closed (distinct keys, duplicate-free successor
+    lists, every successor a key; a label outside the table counts as a terminal), so the full
+    Tarjan theorem of C19 applies without a guard: [scc] succeeds and passes the oracle *)
+Theorem C01_nt_graph_closed : forall G, closed (nt_graph G) = true.
+Proof. exact nt_graph_closed. Qed.
+Print Assumptions C01_nt_graph_closed.
+
+Theorem C01_scc_order_accepted :
+  forall G, exists order, scc (nt_graph G) = Some order /\ scc_ok (nt_graph G) order = true.
+Proof. exact scc_nt_graph_ok. Qed.
+Print Assumptions C01_scc_order_accepted.
+
+(** guard 3 of [sp_check] (nonrecursive_order of the computed order) fires exactly on the
+    grammars that are recursive in the Prop sense (no rank function) *)
+Theorem C01_nonrecursive_iff_ranked :
+  forall G, (exists rank, ranked G rank)
+            <-> exists order, scc (nt_graph G) = Some order /\ nonrecursive_order G order = true.
+Proof. exact nonrecursive_iff_ranked. Qed.
+Print Assumptions C01_nonrecursive_iff_ranked.
+
+Theorem C01_ranked_scc_nonrecursive :
+  forall G rank order, ranked G rank -> scc_ok (nt_graph G) order = true -> nonrecursive_order G order = true.
+Proof. exact ranked_scc_nonrecursive. Qed.
+Print Assumptions C01_ranked_scc_nonrecursive.
+
+(** C01 END TO END (this is what [sp_check] evaluates): for every well-formed grammar and every
+    weight table whose keys are terminals, the Tarjan model returns an order, the oracle accepts
+    it, it passes [nonrecursive_order] iff the grammar is non-recursive, and then every entry of
+    the code-shaped driver run with that order (every nonterminal, every external assignment)
+    equals the tabulated specification, the Kleene iterate number #nonterminals, and the sum over
+    ALL derivation trees, each listed exactly once.  Generic, then per carrier without premise *)
+Theorem C01_end_to_end :
+  forall R (o : sr_ops R), sr_ring o ->
+  forall G (w : tmt (R:=R)),
+    wf_grammar G = true -> (forall l, tget w l <> None -> is_term G l = true) ->
+  exists order,
+    scc (nt_graph G) = Some order /\ scc_ok (nt_graph G) order = true
+    /\ ((exists rank, ranked G rank) <-> nonrecursive_order G order = true)
+    /\ (nonrecursive_order G order = true ->
+        forall X xi, is_term G X = false -> In xi (all_assts (lshape G X)) ->
+          let N := length (nonterminals G) in
+          let v := env_of o (sum_products_nonrec o G w order) X xi in
+          v = env_of o (Ztab o G (env_of o w) N) X xi
+          /\ v = Zk o G (env_of o w) N X xi
+          /\ v = sumS o (enum_trees G N X xi) (weight o G (env_of o w))
+          /\ NoDup (enum_trees G N X xi)
+          /\ (forall t, In t (enum_trees G N X xi) <-> wf_dtree G X xi t)).
+Proof. exact (fun R o H => @sum_products_end_to_end R o H). Qed.
+Print Assumptions C01_end_to_end.
+
+Theorem C01_end_to_end_ranked :
+  forall R (o : sr_ops R), sr_ring o ->
+  forall G (w : tmt (R:=R)) rank,
+    wf_grammar G = true -> (forall l, tget w l <> None -> is_term G l = true) -> ranked G rank ->
+  exists order,
+    scc (nt_graph G) = Some order /\ nonrecursive_order G order = true
+    /\ forall X xi, is_term G X = false -> In xi (all_assts (lshape G X)) ->
+         let N := length (nonterminals G) in
+         let v := env_of o (sum_products_nonrec o G w order) X xi in
+         v = env_of o (Ztab o G (env_of o w) N) X xi
+         /\ v = Zk o G (env_of o w) N X xi
+         /\ v = sumS o (enum_trees G N X xi) (weight o G (env_of o w))
+         /\ NoDup (enum_trees G N X xi)
+         /\ (forall t, In t (enum_trees G N X xi) <-> wf_dtree G X xi t).
+Proof. exact (fun R o H => @sum_products_end_to_end_ranked R o H). Qed.
+Print Assumptions C01_end_to_end_ranked.
+
+(** Real (and Log, read through exp: the Log semiring is modelled by [ereal_ops] on the exponentials) *)
+Theorem C01_end_to_end_real :
+  forall G (w : tmt (R:=ereal)),
+    wf_grammar G = true -> (forall l, tget w l <> None -> is_term G l = true) ->
+  exists order,
+    scc (nt_graph G) = Some order /\ scc_ok (nt_graph G) order = true
+    /\ ((exists rank, ranked G rank) <-> nonrecursive_order G order = true)
+    /\ (nonrecursive_order G order = true ->
+        forall X xi, is_term G X = false -> In xi (all_assts (lshape G X)) ->
+          let N := length (nonterminals G) in
+          let v := env_of ereal_ops (sum_products_nonrec ereal_ops G w order) X xi in
+          v = env_of ereal_ops (Ztab ereal_ops G (env_of ereal_ops w) N) X xi
+          /\ v = Zk ereal_ops G (env_of ereal_ops w) N X xi
+          /\ v = sumS ereal_ops (enum_trees G N X xi) (weight ereal_ops G (env_of ereal_ops w))
+          /\ NoDup (enum_trees G N X xi)
+          /\ (forall t, In t (enum_trees G N X xi) <-> wf_dtree G X xi t)).
+Proof. exact ereal_end_to_end. Qed.
+Print Assumptions C01_end_to_end_real.
+
+Theorem C01_end_to_end_ranked_real :
+  forall G (w : tmt (R:=ereal)) rank,
+    wf_grammar G = true -> (forall l, tget w l <> None -> is_term G l = true) -> ranked G rank ->
+  exists order,
+    scc (nt_graph G) = Some order /\ nonrecursive_order G order = true
+    /\ forall X xi, is_term G X = false -> In xi (all_assts (lshape G X)) ->
+         let N := length (nonterminals G) in
+         let v := env_of ereal_ops (sum_products_nonrec ereal_ops G w order) X xi in
+         v = env_of ereal_ops (Ztab ereal_ops G (env_of ereal_ops w) N) X xi
+         /\ v = Zk ereal_ops G (env_of ereal_ops w) N X xi
+         /\ v = sumS ereal_ops (enum_trees G N X xi) (weight ereal_ops G (env_of ereal_ops w))
+         /\ NoDup (enum_trees G N X xi)
+         /\ (forall t, In t (enum_trees G N X xi) <-> wf_dtree G X xi t).
+Proof. exact ereal_end_to_end_ranked. Qed.
+Print Assumptions C01_end_to_end_ranked_real.
+
+(** Viterbi (max-plus on [-inf,+inf]) *)
+Theorem C01_end_to_end_viterbi :
+  forall G (w : tmt (R:=trop)),
+    wf_grammar G = true -> (forall l, tget w l <> None -> is_term G l = true) ->
+  exists order,
+    scc (nt_graph G) = Some order /\ scc_ok (nt_graph G) order = true
+    /\ ((exists rank, ranked G rank) <-> nonrecursive_order G order = true)
+    /\ (nonrecursive_order G order = true ->
+        forall X xi, is_term G X = false -> In xi (all_assts (lshape G X)) ->
+          let N := length (nonterminals G) in
+          let v := env_of trop_ops (sum_products_nonrec trop_ops G w order) X xi in
+          v = env_of trop_ops (Ztab trop_ops G (env_of trop_ops w) N) X xi
+          /\ v = Zk trop_ops G (env_of trop_ops w) N X xi
+          /\ v = sumS trop_ops (enum_trees G N X xi) (weight trop_ops G (env_of trop_ops w))
+          /\ NoDup (enum_trees G N X xi)
+          /\ (forall t, In t (enum_trees G N X xi) <-> wf_dtree G X xi t)).
+Proof. exact trop_end_to_end. Qed.
+Print Assumptions C01_end_to_end_viterbi.
+
+Theorem C01_end_to_end_ranked_viterbi :
+  forall G (w : tmt (R:=trop)) rank,
+    wf_grammar G = true -> (forall l, tget w l <> None -> is_term G l = true) -> ranked G rank ->
+  exists order,
+    scc (nt_graph G) = Some order /\ nonrecursive_order G order = true
+    /\ forall X xi, is_term G X = false -> In xi (all_assts (lshape G X)) ->
+         let N := length (nonterminals G) in
+         let v := env_of trop_ops (sum_products_nonrec trop_ops G w order) X xi in
+         v = env_of trop_ops (Ztab trop_ops G (env_of trop_ops w) N) X xi
+         /\ v = Zk trop_ops G (env_of trop_ops w) N X xi
+         /\ v = sumS trop_ops (enum_trees G N X xi) (weight trop_ops G (env_of trop_ops w))
+         /\ NoDup (enum_trees G N X xi)
+         /\ (forall t, In t (enum_trees G N X xi) <-> wf_dtree G X xi t).
+Proof. exact trop_end_to_end_ranked. Qed.
+Print Assumptions C01_end_to_end_ranked_viterbi.
+
+(** Bool *)
+Theorem C01_end_to_end_bool :
+  forall G (w : tmt (R:=bool)),
+    wf_grammar G = true -> (forall l, tget w l <> None -> is_term G l = true) ->
+  exists order,
+    scc (nt_graph G) = Some order /\ scc_ok (nt_graph G) order = true
+    /\ ((exists rank, ranked G rank) <-> nonrecursive_order G order = true)
+    /\ (nonrecursive_order G order = true ->
+        forall X xi, is_term G X = false -> In xi (all_assts (lshape G X)) ->
+          let N := length (nonterminals G) in
+          let v := env_of bool_ops (sum_products_nonrec bool_ops G w order) X xi in
+          v = env_of bool_ops (Ztab bool_ops G (env_of bool_ops w) N) X xi
+          /\ v = Zk bool_ops G (env_of bool_ops w) N X xi
+          /\ v = sumS bool_ops (enum_trees G N X xi) (weight bool_ops G (env_of bool_ops w))
+          /\ NoDup (enum_trees G N X xi)
+          /\ (forall t, In t (enum_trees G N X xi) <-> wf_dtree G X xi t)).
+Proof. exact bool_end_to_end. Qed.
+Print Assumptions C01_end_to_end_bool.
+
+Theorem C01_end_to_end_ranked_bool :
+  forall G (w : tmt (R:=bool)) rank,
+    wf_grammar G = true -> (forall l, tget w l <> None -> is_term G l = true) -> ranked G rank ->
+  exists order,
+    scc (nt_graph G) = Some order /\ nonrecursive_order G order = true
+    /\ forall X xi, is_term G X = false -> In xi (all_assts (lshape G X)) ->
+         let N := length (nonterminals G) in
+         let v := env_of bool_ops (sum_products_nonrec bool_ops G w order) X xi in
+         v = env_of bool_ops (Ztab bool_ops G (env_of bool_ops w) N) X xi
+         /\ v = Zk bool_ops G (env_of bool_ops w) N X xi
+         /\ v = sumS bool_ops (enum_trees G N X xi) (weight bool_ops G (env_of bool_ops w))
+         /\ NoDup (enum_trees G N X xi)
+         /\ (forall t, In t (enum_trees G N X xi) <-> wf_dtree G X xi t).
+Proof. exact bool_end_to_end_ranked. Qed.
+Print Assumptions C01_end_to_end_ranked_bool.
+
+(** instances of the generic theorems for an arbitrary dependency order (the Bool ones are above) *)
+Theorem C01_real_sum_products_eq_spec :
+  forall G, wf_grammar G = true ->
+  forall (w : tmt (R:=ereal)) ord, (forall l, tget w l <> None -> is_term G l = true) ->
+    dep_ordered G [] ord -> NoDup ord -> (forall X, is_term G X = false -> In X ord) ->
+  forall X xi, is_term G X = false -> In xi (all_assts (lshape G X)) ->
+    let N := length (nonterminals G) in
+    let v := env_of ereal_ops (sum_products_nonrec ereal_ops G w (map (fun x => [x]) ord)) X xi in
+    v = env_of ereal_ops (Ztab ereal_ops G (env_of ereal_ops w) N) X xi
+    /\ v = Zk ereal_ops G (env_of ereal_ops w) N X xi
+    /\ v = sumS ereal_ops (enum_trees G N X xi) (weight ereal_ops G (env_of ereal_ops w))
+    /\ NoDup (enum_trees G N X xi)
+    /\ (forall t, In t (enum_trees G N X xi) <-> wf_dtree G X xi t).
+Proof. exact ereal_sum_products_eq_spec. Qed.
+Print Assumptions C01_real_sum_products_eq_spec.
+
+Theorem C01_real_Zk_is_tree_sum :
+  forall G w k X xi, is_term G X = false -> Zk ereal_ops G w k X xi = tree_sum ereal_ops G w k X xi.
+Proof. exact ereal_Zk_is_tree_sum. Qed.
+Print Assumptions C01_real_Zk_is_tree_sum.
+
+Theorem C01_viterbi_sum_products_eq_spec :
+  forall G, wf_grammar G = true ->
+  forall (w : tmt (R:=trop)) ord, (forall l, tget w l <> None -> is_term G l = true) ->
+    dep_ordered G [] ord -> NoDup ord -> (forall X, is_term G X = false -> In X ord) ->
+  forall X xi, is_term G X = false -> In xi (all_assts (lshape G X)) ->
+    let N := length (nonterminals G) in
+    let v := env_of trop_ops (sum_products_nonrec trop_ops G w (map (fun x => [x]) ord)) X xi in
+    v = env_of trop_ops (Ztab trop_ops G (env_of trop_ops w) N) X xi
+    /\ v = Zk trop_ops G (env_of trop_ops w) N X xi
+    /\ v = sumS trop_ops (enum_trees G N X xi) (weight trop_ops G (env_of trop_ops w))
+    /\ NoDup (enum_trees G N X xi)
+    /\ (forall t, In t (enum_trees G N X xi) <-> wf_dtree G X xi t).
+Proof. exact trop_sum_products_eq_spec. Qed.
+Print Assumptions C01_viterbi_sum_products_eq_spec.
+
+Theorem C01_viterbi_Zk_is_tree_sum :
+  forall G w k X xi, is_term G X = false -> Zk trop_ops G w k X xi = tree_sum trop_ops G w k X xi.
+Proof. exact trop_Zk_is_tree_sum. Qed.
+Print Assumptions C01_viterbi_Zk_is_tree_sum.
+
+(** soundness of the oracle of the correspondence check at full strength: verdict 0 of [sp_check]
+    means the grammar is well-formed and non-recursive and every observed cell of every
+    nonterminal is accepted by [within] against the sum over ALL derivation trees *)
+Theorem C01_check_oracle_sound_trees :
+  forall R (o : sr_ops R), sr_ring o ->
+  forall W B (of_wire : W -> R) (within : R -> B -> bool) (eqb : R -> R -> bool) gw ws obs,
+    sp_check o of_wire within eqb (gw, ws, obs) = 0 ->
+  let G := grammar_of_w gw in
+  let Wt := env_of o (weights_tmt of_wire G ws) in
+  let N := length (nonterminals G) in
+  wf_grammar G = true
+  /\ (exists rank, ranked G rank)
+  /\ forall X, is_term G X = false ->
+       (exists ob, obs_get obs X = Some ob
+                   /\ Forall2 (fun xi b => within (sumS o (enum_trees G N X xi) (weight o G Wt)) b = true)
+                              (all_assts (lshape G X)) ob)
+       /\ forall xi, NoDup (enum_trees G N X xi)
+                     /\ forall t, In t (enum_trees G N X xi) <-> wf_dtree G X xi t.
+Proof. exact (fun R o H W B => @sp_check_sound_trees R o H W B). Qed.
+Print Assumptions C01_check_oracle_sound_trees.
+
+Theorem C01_real_check_oracle_sound :
+  forall gw ws obs,
+    sp_check_real (gw, ws, obs) = 0 ->
+  let G := grammar_of_w gw in
+  let Wt := env_of ereal_ops (weights_tmt ereal_of G ws) in
+  let N := length (nonterminals G) in
+  wf_grammar G = true
+  /\ (exists rank, ranked G rank)
+  /\ forall X, is_term G X = false ->
+       (exists ob, obs_get obs X = Some ob
+                   /\ Forall2 (fun xi b => real_within (sumS ereal_ops (enum_trees G N X xi) (weight ereal_ops G Wt)) b = true)
+                              (all_assts (lshape G X)) ob)
+       /\ forall xi, NoDup (enum_trees G N X xi)
+                     /\ forall t, In t (enum_trees G N X xi) <-> wf_dtree G X xi t.
+Proof. exact sp_check_real_sound_trees. Qed.
+Print Assumptions C01_real_check_oracle_sound.
+
+Theorem C01_viterbi_check_oracle_sound :
+  forall gw ws obs,
+    sp_check_trop (gw, ws, obs) = 0 ->
+  let G := grammar_of_w gw in
+  let Wt := env_of trop_ops (weights_tmt trop_of G ws) in
+  let N := length (nonterminals G) in
+  wf_grammar G = true
+  /\ (exists rank, ranked G rank)
+  /\ forall X, is_term G X = false ->
+       (exists ob, obs_get obs X = Some ob
+                   /\ Forall2 (fun xi (b : (nat * QArith_base.Q) * (nat * QArith_base.Q)) =>
+                                 trop_within (sumS trop_ops (enum_trees G N X xi) (weight trop_ops G Wt)) (fst b) (snd b) = true)
+                              (all_assts (lshape G X)) ob)
+       /\ forall xi, NoDup (enum_trees G N X xi)
+                     /\ forall t, In t (enum_trees G N X xi) <-> wf_dtree G X xi t.
+Proof. exact sp_check_trop_sound_trees. Qed.
+Print Assumptions C01_viterbi_check_oracle_sound.
+
+Theorem C01_bool_check_oracle_sound_trees :
+  forall gw ws obs,
+    sp_check_bool (gw, ws, obs) = 0 ->
+  let G := grammar_of_w gw in
+  let Wt := env_of bool_ops (weights_tmt (fun b : bool => b) G ws) in
+  let N := length (nonterminals G) in
+  wf_grammar G = true
+  /\ (exists rank, ranked G rank)
+  /\ forall X, is_term G X = false ->
+       (exists ob, obs_get obs X = Some ob
+                   /\ ob = map (fun xi => sumS bool_ops (enum_trees G N X xi) (weight bool_ops G Wt)) (all_assts (lshape G X)))
+       /\ forall xi, NoDup (enum_trees G N X xi)
+                     /\ forall t, In t (enum_trees G N X xi) <-> wf_dtree G X xi t.
+Proof. exact sp_check_bool_sound_trees. Qed.
+Print Assumptions C01_bool_check_oracle_sound_trees.
+
+(** the side condition "the keys of the weight table are terminals" for the wire format of the
+    checks: it is the boolean test below (true by construction in the harness, which lists the
+    weighted terminals; see notes/GLUE.md) *)
+Theorem C01_weights_keys_terminal :
+  forall R W (of_wire : W -> R) G (ws : list (nat * list W)),
+    forallb (fun p => is_term G (fst p)) ws = true ->
+    forall l, tget (weights_tmt of_wire G ws) l <> None -> is_term G l = true.
+Proof. exact (fun R W => @weights_tmt_keys R W). Qed.
+Print Assumptions C01_weights_keys_terminal.
+
+(** the premises of the end-to-end theorems are satisfiable *)
+Theorem C01_end_to_end_hypotheses :
+  wf_grammar G_ex = true /\ ranked G_ex rank_ex
+  /\ scc (nt_graph G_ex) = Some [[1]; [2]; [3]]
+  /\ nonrecursive_order G_ex [[1]; [2]; [3]] = true
+  /\ (forall l, tget (@nil (nat * table (R:=bool))) l <> None -> is_term G_ex l = true).
+Proof. exact end_to_end_hypotheses. Qed.
+Print Assumptions C01_end_to_end_hypotheses.
